@@ -225,3 +225,164 @@ Example C06_all_positions_decoder_example :
         (Vocab.F_Source, Vocab.FSource [] (Some [(B "en", B "\u0041"); (B "-", B "true"); (hx "c3a9", B "x")]));
         (Vocab.F_PreferredUsername, Vocab.FNlv (Some [(NilRef, hx "f09f9880")]))])).
 Proof. vm_compute. reflexivity. Qed.
+
+(* ================================================================ b43: the gob clause on the gob wire model of C03
+   Everything above models encoding/gob as the identity on the []kv value (C06_gob).  This block states the gob
+   clause on the abstract gob wire of Model/Gob.v - the model harness/c03.go and harness/c06gob.go compare with
+   the real bytes - where NaturalLanguageValues.GobEncode / GobDecode, gobDecodeNaturalLanguageValues,
+   LangRefValue.GobEncode / GobDecode and Content.GobEncode / GobDecode are INTERPRETED from their statement
+   lists regenerated from the source on every run (Gen/GobW.gobw_codecs, Gen/GobR.gobr_codecs), under the
+   decidable table condition codecs_ok; encoding/gob itself stays assumptions g1-g4 of Model/Gob.v.
+
+   What comes back, exactly (read off the code, proved of the model, compared on every run):
+   - GobEncode writes NO bytes for a nil or empty list, else the gob stream of []kv{K: Ref, V: Value}, one kv per
+     entry, in order: nothing is dropped, merged, re-ordered or unescaped - repeated tags, empty texts, empty tags
+     and bytes that are not UTF-8 included (gob carries raw bytes);
+   - GobDecode APPENDS the decoded entries to the receiver; on no bytes it leaves the receiver as it is.  Into a
+     nil or empty receiver (every property of a freshly decoded struct) a non-empty list comes back as itself. *)
+From AP.Model Require Import Vocab Layout Dispatch GobTables Gob GobCheck GobNorm GobWhole GobInst.
+From AP.Proofs Require GobCodecP GobTextP.
+From AP.Gen Require Import Layout.
+
+(* the table condition on the one-call codecs, on the tables of this run; first as a diagnosis: when a codec
+   changes, the error names it *)
+Theorem C06_gob_bad_codecs_none : bad_codecs genv = [].
+Proof. vm_compute. reflexivity. Qed.
+
+Theorem C06_gob_codecs_condition : codecs_ok genv = true /\ bad_codecs genv = [].
+Proof. vm_compute. split; reflexivity. Qed.
+
+(* --- the codec of language values, for ALL lists and every receiver, generic in the tables *)
+Theorem C06_gob_nlv_codec_generic : forall E, codecs_ok E = true ->
+  forall (l : list (bytes * bytes)) (cur : Vocab.nlv),
+  lr_method E n_nlv_dec (LvNlv cur) (lw_exec E n_nlv_enc (LvNlv (Some l))) =
+  Ok (LvNlv (match l with [] => cur | _ => Some (olist cur ++ l) end)).
+Proof. exact GobTextP.nlv_codec_rt. Qed.
+
+(* into a nil or empty list: byte for byte, tags and order preserved, for every non-empty list *)
+Theorem C06_gob_nlv_codec : forall (l : list (bytes * bytes)) (cur : Vocab.nlv), l <> [] -> olist cur = [] ->
+  lr_method genv n_nlv_dec (LvNlv cur) (lw_exec genv n_nlv_enc (LvNlv (Some l))) = Ok (LvNlv (Some l)).
+Proof. exact (GobTextP.nlv_codec_exact genv (proj1 C06_gob_codecs_condition)). Qed.
+
+(* gobDecodeNaturalLanguageValues (content, summary, preferredUsername): every list, the empty one as Some [] *)
+Theorem C06_gob_nlv_helper : forall (l : list (bytes * bytes)),
+  lr_helper genv n_nlv_fn (lw_exec genv n_nlv_enc (LvNlv (Some l))) = Ok (LvNlv (Some l)).
+Proof. exact (GobTextP.nlv_helper_rt genv (proj1 C06_gob_codecs_condition)). Qed.
+
+(* the same through the codec names of the property tables (what map / unmap<T>Properties call) *)
+Theorem C06_gob_nlv_field : forall rec (l : list (bytes * bytes)) (cur : option Vocab.fval),
+  rdec0 genv rec CrNlvMethod cur (wenc0 genv CwNlv (Some (PLeaf (Vocab.FNlv (Some l))))) =
+  Ok (Vocab.FNlv (match l with [] => cur_nlv cur | _ => Some (olist (cur_nlv cur) ++ l) end)) /\
+  rdec0 genv rec CrNlvFn cur (wenc0 genv CwNlv (Some (PLeaf (Vocab.FNlv (Some l))))) = Ok (Vocab.FNlv (Some l)).
+Proof. exact (GobTextP.nlv_field_rt genv (proj1 C06_gob_codecs_condition)). Qed.
+
+(* one language value (LangRefValue) and one text (Content), any bytes *)
+Theorem C06_gob_lrv_codec : forall k v a b : bytes,
+  lr_method genv n_lrv_dec (LvKv a b) (lw_exec genv n_lrv_enc (LvKv k v)) =
+  Ok (match k, v with [], [] => LvKv a b | _, _ => LvKv k v end).
+Proof. exact (GobTextP.lrv_codec_rt genv (proj1 C06_gob_codecs_condition)). Qed.
+
+Theorem C06_gob_content_codec : forall s cur : bytes,
+  lr_method genv n_content_dec (LvStr cur) (lw_exec genv n_content_enc (LvStr s)) = Ok (LvStr (match s with [] => cur | _ => s end)).
+Proof. exact (GobTextP.content_codec_rt genv (proj1 C06_gob_codecs_condition)). Qed.
+
+(* --- the model of C06_gob (gob_encode_nl / gob_decode_nl) IS the NaturalLanguageValues codec of the wire model,
+   so C06_gob is a statement about the same codec C03 is about *)
+Theorem C06_gob_model_is_wire : forall E, codecs_ok E = true -> forall (l : nl),
+  lw_exec E n_nlv_enc (LvNlv (Some l)) = GobTextP.wire_of_kvs (gob_encode_nl l) /\
+  lr_method E n_nlv_dec (LvNlv None) (GobTextP.wire_of_kvs (gob_encode_nl l)) =
+    Ok (LvNlv (match gob_decode_nl (gob_encode_nl l) with [] => None | l' => Some l' end)).
+Proof. exact GobTextP.text_model_is_wire. Qed.
+
+Theorem C06_gob_on_wire : forall p (l : nl),
+  omap (fun v => olist (lv_nlv v)) (lr_method genv n_nlv_dec (LvNlv None) (lw_exec genv n_nlv_enc (LvNlv (Some l)))) =
+  Ok (text_after_gob_roundtrip p l) /\ text_after_gob_roundtrip p l = l.
+Proof.
+  intros p l. split; [exact (GobTextP.text_after_gob_is_wire genv (proj1 C06_gob_codecs_condition) p l)|exact (gob_roundtrip p l)].
+Qed.
+
+(* --- the five positions of a struct value, as corollaries of C03's whole-value round trip.
+   text_of p fs: the (tag, text) pairs the field list holds at position p, in order ([] = none); source.content
+   is the content of the Source struct.  Generic in the tables (gob_whole_ok), any bytes, any list. *)
+Theorem C06_gob_positions_generic : forall E, gob_whole_ok E = true ->
+  forall pt k fs p, wf_gob E (Vocab.IObj pt k fs) = true -> in_layout E k (GobTextP.pos_field p) = true ->
+  GobTextP.text_of p fs <> [] ->
+  exists pt' fs', gdec E (genc E (Vocab.IObj pt k fs)) = Ok (Vocab.IObj pt' k fs') /\ GobTextP.text_of p fs' = GobTextP.text_of p fs.
+Proof. exact GobTextP.gob_text_item. Qed.
+
+Theorem C06_gob_whole_condition : gob_whole_ok genv = true.
+Proof. vm_compute. reflexivity. Qed.
+
+(* package-level GobEncode / GobDecode on the tables of this run *)
+Theorem C06_gob_positions :
+  forall pt k fs p, wf_gob genv (Vocab.IObj pt k fs) = true -> in_layout genv k (GobTextP.pos_field p) = true ->
+  GobTextP.text_of p fs <> [] ->
+  exists pt' fs', gdec genv (genc genv (Vocab.IObj pt k fs)) = Ok (Vocab.IObj pt' k fs') /\ GobTextP.text_of p fs' = GobTextP.text_of p fs.
+Proof. exact (GobTextP.gob_text_item genv C06_gob_whole_condition). Qed.
+
+(* a position that holds no text holds none afterwards *)
+Theorem C06_gob_positions_unset :
+  forall pt k fs p, wf_gob genv (Vocab.IObj pt k fs) = true -> in_layout genv k (GobTextP.pos_field p) = true ->
+  GobTextP.text_of p fs = [] ->
+  exists y, gdec genv (genc genv (Vocab.IObj pt k fs)) = Ok y /\
+            forall pt' fs', y = Vocab.IObj pt' k fs' -> GobTextP.text_of p fs' = [].
+Proof. exact (GobTextP.gob_text_item_unset genv C06_gob_whole_condition). Qed.
+
+(* T.GobEncode / ( *T).GobDecode into a zero T (= MarshalBinary / UnmarshalBinary): no condition on the type name *)
+Theorem C06_gob_positions_method :
+  forall k fs p,
+  (forall f v, In (f, v) fs -> match ftype genv k f with Some t => shape_ok t v | None => true end = true /\ wf_gob_fval genv v = true) ->
+  in_layout genv k (GobTextP.pos_field p) = true ->
+  exists out, gdec_k genv k (genc_k genv k fs) = Ok out /\ GobTextP.text_of p out = GobTextP.text_of p fs.
+Proof. exact (GobTextP.gob_text_method genv C06_gob_whole_condition). Qed.
+
+(* the normal form C03 is stated up to holds, at a position, exactly the texts (any field list) *)
+Theorem C06_gob_norm_keeps_text : forall p k fs d,
+  In d (layout_of k) -> fd_fid d = GobTextP.pos_field p ->
+  GobTextP.text_of_onorm p (Vocab.getf (GobTextP.pos_field p) (norm_fields layout_of layout_endpoints k fs)) = GobTextP.text_of p fs.
+Proof.
+  intros p k fs d. apply GobTextP.text_in_norm. exact (GobRtP.layout_nodup genv C06_gob_whole_condition k).
+Qed.
+
+(* which struct kinds have which positions: name / summary / content / source on the 13 object kinds, name on
+   Link, preferredUsername on Actor only *)
+Example C06_gob_position_kinds :
+  forallb (fun k => forallb (fun p => in_layout genv k (GobTextP.pos_field p)) [PName; PSummary; PContent; PSourceContent])
+          [Vocab.KObject; Vocab.KActor; Vocab.KActivity; Vocab.KIntransitive; Vocab.KQuestion; Vocab.KCollection; Vocab.KCollectionPage;
+           Vocab.KOrdered; Vocab.KOrderedPage; Vocab.KPlace; Vocab.KProfile; Vocab.KRelationship; Vocab.KTombstone] = true /\
+  in_layout genv Vocab.KActor (GobTextP.pos_field PPreferredUsername) = true /\
+  in_layout genv Vocab.KObject (GobTextP.pos_field PPreferredUsername) = false /\
+  in_layout genv Vocab.KLink (GobTextP.pos_field PName) = true /\ in_layout genv Vocab.KLink (GobTextP.pos_field PContent) = false.
+Proof. vm_compute. repeat split; reflexivity. Qed.
+
+(* non-vacuity: an actor holding all five positions - repeated tags, an empty text, an empty tag, bytes that are
+   not UTF-8, text that looks like an escape - is in the domain, and the model gives every position back *)
+Definition c06_gob_actor : list (Vocab.fid * Vocab.fval) :=
+  [(Vocab.F_ID, Vocab.FStr (B "https://example.com/u")); (Vocab.F_Type, Vocab.FStr (B "Person"));
+   (Vocab.F_Name, Vocab.FNlv (Some [(B "en", B "colour"); (B "en", B "color"); (B "fr", B "couleur")]));
+   (Vocab.F_Summary, Vocab.FNlv (Some [(B "en", []); ([], B "no tag"); (B "-", B "C:\new\table")]));
+   (Vocab.F_Content, Vocab.FNlv (Some [(hx "ff", hx "c328fffe00"); (B "x", B "{""type"":""Delete""}")]));
+   (Vocab.F_Source, Vocab.FSource (B "text/markdown") (Some [(B "en", B "*a*"); (B "en", B "*b*")]));
+   (Vocab.F_PreferredUsername, Vocab.FNlv (Some [(B "-", B "bob\u0041")]))].
+
+Example C06_gob_positions_example :
+  wf_gob genv (Vocab.IObj true Vocab.KActor c06_gob_actor) = true /\
+  forallb (fun p => in_layout genv Vocab.KActor (GobTextP.pos_field p)) all_pos = true /\
+  Forall (fun p => GobTextP.text_of p c06_gob_actor <> []) all_pos /\
+  match gdec genv (genc genv (Vocab.IObj true Vocab.KActor c06_gob_actor)) with
+  | Ok (Vocab.IObj _ Vocab.KActor fs') =>
+      forallb (fun p => list_eqb (pair_eqb bytes_eqb bytes_eqb) (GobTextP.text_of p fs') (GobTextP.text_of p c06_gob_actor)) all_pos
+  | _ => false
+  end = true /\
+  GobTextP.text_of PSourceContent c06_gob_actor = [(B "en", B "*a*"); (B "en", B "*b*")] /\
+  (* the hypothesis of the method route, and its conclusion on this value *)
+  forallb (fun fv => match ftype genv Vocab.KActor (fst fv) with Some t => shape_ok t (snd fv) | None => true end && wf_gob_fval genv (snd fv))
+          c06_gob_actor = true /\
+  match gdec_k genv Vocab.KActor (genc_k genv Vocab.KActor c06_gob_actor) with
+  | Ok out => forallb (fun p => list_eqb (pair_eqb bytes_eqb bytes_eqb) (GobTextP.text_of p out) (GobTextP.text_of p c06_gob_actor)) all_pos
+  | _ => false
+  end = true.
+Proof.
+  split; [vm_compute; reflexivity|]. split; [vm_compute; reflexivity|].
+  split; [repeat constructor; vm_compute; discriminate|]. repeat split; vm_compute; reflexivity.
+Qed.
